@@ -60,7 +60,7 @@ class C09(props.Prop):
         spec['choices'] = res.choices
         v.key = res.trace_digest
         rec = res.rec
-        if res.outcome in ('hang', 'stepcap', 'deadlock') or str(
+        if res.outcome in ('hang', 'stepcap', 'wallcap', 'deadlock') or str(
                 res.outcome).startswith('harness'):
             v.aborted = res.outcome
             return v
